@@ -43,9 +43,10 @@ CLAIMED = {
          "permutation by (timestamp, signature rank), unique when keys are distinct; in a frame and in a delivered block an ancestor precedes its descendant; "
          "a block's payload is the concatenation of its frame events' payloads (contiguous, creator order) and the frame is the cached frame of its "
          "round-received; round-received is assigned once and kept, received lists hold exactly the events of that round-received without repetition, frames "
-         "of distinct rounds are disjoint, so no event is committed twice. NOT proved (kept as Definitions, evaluated by the oracle on every history): "
-         "round-received monotone along ancestry, hence the cross-block part of 'ancestors are committed earlier'",
-         "15 theorems, no axioms; premise: event ids (hash ordinals) determine the event; signature ranks / coin bits are harness-supplied data; "
+         "of distinct rounds are disjoint, so no event is committed twice. Round-received is monotone along ancestry under static membership (C04_rr_monotone_static); for dynamic "
+         "membership, and the assembled cross-block statement 'ancestors are committed earlier', the full statements are kept as Definitions and evaluated by "
+         "the oracle on every history",
+         "17 theorems, no axioms; premise: event ids (hash ordinals) determine the event; signature ranks / coin bits are harness-supplied data; "
          "fast-sync reset not modelled",
          "Coq invariant proof over operation lists + gossip-history correspondence (keys e/d/r) + implementation oracle (orderOracle, frameOracle)"),
  "C17": ("State gate of the node (processRPC gate, the four handlers' answer classes, read-only sync / fast-forward handlers with the eventDiff + limit + "
@@ -125,18 +126,24 @@ CLAIMED = {
          "plain map are proved as refutation witnesses (W1-W5). Tied to the code by replaying every operation of generated sequences on the real BadgerStore",
          "13 theorems, no axioms; Badger atomicity/durability and codecs assumed (C15); Reset/Bootstrap out of this model (C11/C13)",
          "Coq refinement proof (simulation relation) + operation-level correspondence with the real BadgerStore"),
- "C01": ("Safety core of agreement proved in Coq on the model's virtual-voting loop for all views (unbounded rounds/witnesses): a supermajority tally forces all "
-         "later votes, two views never decide a witness's fame differently, a lagging view's decision is every larger view's decision, map-iteration order is "
-         "irrelevant; the hypotheses that tie views to the DAG (view_ok / same_history) are explicit premises, not yet discharged (partial). The full agreement "
-         "statement is evaluated by the oracle on real cores after every action of random lagging-view gossip histories with static and dynamic membership, "
-         "and every observable of every node is compared with the model after every action",
-         "partial: stages S1-S3 (coordinates = ancestry) are premises; dynamic membership inside one fame decision not covered by the theorems",
-         "Coq proof of virtual-voting safety (quorum intersection, induction on rounds) + gossip-history correspondence + prefix-consistency oracle"),
- "C03": ("Proved: fame decisions are independent of witness iteration order and monotone in the view; the consensus passes never touch the admitted DAG. "
-         "Refuted in Coq with a 15-event witness replayed on the code: results depend on the batching of consensus passes (known finding). Order / prefix / store / "
-         "cache independence are full statements kept as Definitions and evaluated on every generated DAG (random topological orders incl. maximally delayed "
-         "creators, downward-closed cuts, Badger vs in-memory, batch sizes), each run also replayed on the model",
-         "partial: order-independence and prefix theorems over whole DAGs not proved; batching clause is a known finding",
+ "C01": ("Proved in Coq for every reachable state of the per-event pipeline (any insertion order incl. late witnesses, ProcessSigPool, any two nodes over one event "
+         "universe) under static membership and no fork across the two nodes: no consensus pass ever fails; the coordinates mean what they should (invariant cinv: "
+         "first descendants incl. the walk-stop rule, memoised rounds satisfy the round equation); two nodes never decide a witness's fame differently and a "
+         "decision on a smaller view is the decision of every larger view (view_ok / same_history DISCHARGED); decided rounds have the same famous-witness set "
+         "(late witnesses are decided not famous by everybody); an event received by both nodes has the same round-received. Block-level equality (frames, "
+         "indexes) is kept as the full statement and is evaluated by the oracle on real cores after every action of random lagging-view gossip histories with "
+         "static and dynamic membership; every observable of every node is compared with the model after every action",
+         "16 theorems, no axioms; premises: event id determines the event (hash collision freedom), static membership (no accepted internal transaction), the two "
+         "nodes do not hold the two branches of a fork; dynamic membership and frame/block equality: oracle + correspondence only",
+         "Coq invariant proofs over operation lists (7000+ lines: coordinates, strongly-see, rounds as functions of ancestry, virtual-voting safety) + gossip-history correspondence + prefix-consistency oracle"),
+ "C03": ("Proved in Coq (per-event mode, static membership): round, witness flag, Lamport timestamp, strongly-see and see of a stored event are functions of its "
+         "ancestry: any two reachable states over one universe (any insertion orders, any cuts, any nodes) agree on them for the events they share; fame "
+         "decisions are independent of witness iteration order and monotone in the view; the consensus passes never touch the admitted DAG. Refuted in Coq with a "
+         "15-event witness replayed on the code: results depend on the batching of consensus passes (known finding). Whole-DAG order / prefix / store / cache "
+         "independence are full statements kept as Definitions and evaluated on every generated DAG (random topological orders incl. maximally delayed creators, "
+         "downward-closed cuts, Badger vs in-memory, batch sizes), each run also replayed on the model",
+         "8 theorems, no axioms; 'the same events are admitted under every topological order' and round-received / frames / blocks as functions of the DAG are not "
+         "yet theorems; batching clause is a known finding",
          "Coq theorems + refutation witness + DAG re-feeding differential oracle + model replay (per-event and batched)"),
  "C05": ("Pool discipline of core.addSelfEvent proved in Coq for every sequence of submissions and succeeding / failing insertions (with appends during the insertion): "
          "accepted transactions = payloads of the node's own events ++ pending pool, in order; exactly one event per transaction; a failed insertion keeps everything "
